@@ -47,7 +47,7 @@ func main() {
 			run.Count("corpus_cases", 1)
 		}
 	}
-	sets := run.Pick(3000, 500000)
+	sets := run.Pick(3000, 2000000)
 	const per = 50
 	run.Parallel(sets/per, func(batch int) {
 		r := run.Rand(uint64(batch))
